@@ -402,7 +402,15 @@ def main_native(E, R, command, testnet, paranoia, to_file, ln, ctor_raises):
         return "new: random secret, no native equivalence"
     tail = {"from-bip39-seed": [command, SEED], "from-mnemonic": [command, MNEM, "--password", "pw"],
             "from-entropy-hex": [command, ENTH, "--password", "pw"], "from-master-xprv": [command, XPRV]}[command]
-    return cli_vector(E, R, argv + tail, "ok", api=api, file_arg="out.json" if to_file else None)
+    r = cli_vector(E, R, argv + tail, "ok", api=api, file_arg="out.json" if to_file else None)
+    if command == "from-master-xprv":
+        # a secret that passes the validators but cannot produce a paper wallet (an extended PUBLIC key: generation needs
+        # hardened children): non-zero status, nothing on stdout, no file -- also when --file was given
+        cli_vector(E, R, (["--file", "out.json"] if to_file else []) + (["--paranoia"] if paranoia else []) + [command, XPUB], "fail")
+    return r
+
+
+XPUB = "xpub661MyMwAqRbcFtXgS5sYJABqqG9YLmC4Q1Rdap9gSE8NqtwybGhePY2gZ29ESFjqJoCu1Rupje8YtGqsefD265TMg7usUDFdp6W1EGMcet8"
 
 
 # ------------------------------------------------------------------------------- end-to-end vectors
@@ -431,6 +439,10 @@ def cli_vector(E, R, argv, expect, api=None, pre_existing=None, file_arg=None):
         if expect == "usage":
             E.check(p.returncode == 2 and p.stdout == "" and not new, "bad arguments: exit status 2, nothing on stdout, no file")
             return "usage"
+        if expect == "any" and p.returncode != 0:
+            # the command may refuse this argument vector -- but then it emits nothing
+            E.check(p.stdout == "" and not new, "a refused argument vector: nothing on stdout, no file")
+            return "refused"
         if expect == "fail":
             E.check(p.returncode != 0 and p.stdout == "" and not new, "unusable secret: non-zero status, nothing on stdout, no file")
             return "fail"
@@ -450,18 +462,29 @@ def cli_vector(E, R, argv, expect, api=None, pre_existing=None, file_arg=None):
         if "--paranoia" in argv:
             data = R.main.paranoia_mode(data)
         want = json.loads(json.dumps(data))
+        def _json(t):
+            try:
+                return json.loads(t)
+            except ValueError:
+                return None
         if file_arg:
             E.check(p.stdout == "" and list(new) == [file_arg], "--file: exactly the requested new file, nothing on stdout")
-            got = json.loads(new[file_arg]) if file_arg in new else None
+            got = _json(new[file_arg]) if file_arg in new else None
         else:
             E.check(not new, "without --file no file is created")
-            got = json.loads(p.stdout) if p.stdout.strip() else None
+            got = _json(p.stdout) if p.stdout.strip() else None
         E.check(got == want, "JSON equals the API result for the same secret, network, account and interval (filtered iff --paranoia)")
         if "--paranoia" in argv and got is not None:
             txt = json.dumps(got)
             full = w.generate(account=account, interval=interval)
             secrets_ = [v for _, v in hw.leaves(full) if isinstance(v, str) and hw.classify(E, R, v)[0].startswith(("secret", "text"))]
             E.check(not any(s and s in txt for s in secrets_), "--paranoia output contains none of the secret strings")
+            raw = p.stdout + "".join(new.values())
+            given = [argv[i + 1] for i, a_ in enumerate(argv[:-1]) if a_ == "--password"] + \
+                    [a_.split("=", 1)[1] for a_ in argv if a_.startswith("--password=")] + \
+                    [argv[i + 1] for i, a_ in enumerate(argv[:-1]) if a_ in ("from-mnemonic", "from-bip39-seed", "from-entropy-hex", "from-master-xprv")]
+            E.check(not any(g and g.strip() and g.strip() in raw for g in given) and not any(s and s in raw for s in secrets_),
+                    "--paranoia: nothing the command writes (stdout, file) contains the secret or passphrase it was given")
     return "ok"
 
 
@@ -529,4 +552,25 @@ def vectors():
     add(["--paranoia", "from-master-xprv", "1" * 111], "fail")
     add(["from-master-xprv", "xprv123"], "usage")
     add(["new", "--mnemonic-len", "13"], "usage")
+    # a key that validates but cannot be used for generation (extended public key): nothing may be left behind
+    add(["from-master-xprv", XPUB], "fail")
+    add(["--file", "w.json", "from-master-xprv", XPUB], "fail")
+    add(["--file", "w.json", "--paranoia", "from-master-xprv", XPUB], "fail")
+    # a sibling file of the requested target is not touched
+    add(["--file", "w.json", "--interval", "0", "1"] + S, "ok", api=("seed", SEED, {}), pre_existing=["w.json.tmp", "w.json~", ".w.json.swp", "w.json.bak"],
+        file_arg="w.json")
+    # global options written after the sub-command: refused (nothing emitted) or honoured -- never silently dropped
+    for opt in (["--paranoia"], ["--testnet"], ["--account", "1"], ["--interval", "0", "1"], ["--paranoia", "--testnet"]):
+        add(["--interval", "0", "2"] + S + opt if "--interval" not in opt else S + opt, "any",
+            api=("seed", SEED, {"testnet": "--testnet" in opt}))
+        add(["--interval", "0", "1", "from-mnemonic", MNEM] + opt + ["--password", "pw"], "any",
+            api=("mnemonic", MNEM, {"password": "pw", "testnet": "--testnet" in opt}))
+    add(S + ["--file", "w.json"], "any", api=("seed", SEED, {}), file_arg="w.json")
+    add(["--paranoia"] + S + ["--bogus"], "any", api=("seed", SEED, {}))
+    # passphrases with outer blanks / non-normalised characters / option-like text, with and without --paranoia
+    for pw in (" correct horse ", "\u00e9\u212b", "--paranoia", "x" * 300):
+        pwarg = ["--password=" + pw] if pw.startswith("-") else ["--password", pw]
+        for par in ([], ["--paranoia"]):
+            add(par + ["--interval", "0", "1", "from-mnemonic", MNEM] + pwarg, "ok", api=("mnemonic", MNEM, {"password": pw}))
+            add(par + ["--interval", "3", "4", "from-entropy-hex", ENTH] + pwarg, "ok", api=("entropy", ENTH, {"password": pw}))
     return v
